@@ -172,7 +172,7 @@ def execute(cfg, V):
         a, ca, b, cb = two_circuits(V)
         w = V.val('w', 'pos'); wm = V.val('w_max', 'pos'); t = V.val('t', 'rany')
         cv = {'C1': V.val('C1.C', 'pos')}; lv = {'L1': V.val('L1.L', 'pos')}
-        wl = [0, w]
+        wl = [w, 0]
         watch(circuit=ca, other=cb, components=ca.components, value0=ca.components[0].value, value2=ca.components[2].value, wlist=wl, c_values=cv, l_values=lv)
         cct = r['cct']; csol = r['csol']; cssm = r['cssm']; nssm = r['nssm']; cimp = r['cimp']
         def q(sol, ids=('R1', 'C1', 'Is'), node='n2'):
